@@ -421,10 +421,11 @@ def monitorHold (cfg : SessCfg) (c : ConnInfo) (cbs : List CbCall) (tObsEnd : Na
         let blind := c.pauses.any fun (a, _) => a < t
         -- (the FSM goroutine, which sends the KEEPALIVEs, is the one that runs the application's callbacks: the time
         -- the application keeps it inside OnEstablished / the UPDATE handler is not corebgp's)
+        -- (a KEEPALIVE can go out between two callbacks: what delays it is the longest single one, not their sum)
         let busy := cbs.foldl (fun acc cb =>
           let a := max cb.tEnter prev
           let b := min cb.tExit t
-          if cb.name != "OnClose" && b > a then acc + (b - a) else acc) 0
+          if cb.name != "OnClose" && b > a then max acc (b - a) else acc) 0
         if t > prev + limit + busy && !blind then
           fails := fails ++ [s!"C06 {(t - prev) / ms} ms passed without corebgp sending a KEEPALIVE or UPDATE (hold time {hold} s: at most about one third)"]
         prev := max prev t
